@@ -85,6 +85,17 @@ CHECKS = {
             'Trusts the frame bookkeeping of the harness; handlers added/removed during the iterating frame '
             'accepted either way; single lineage of __events__ per class.',
             'DESIGN.md section 3 / C03'),
+    'C10': ('exploration',
+            'property-based testing (Hypothesis) with harness-owned schedule: histories with drop points between '
+            'operations and inside dispatches, listener iteration order injected as part of the case; '
+            'trace-invariant oracle on receivers and weak references',
+            'Randomised search with shrinking over registration/dispatch histories on a dispatcher and on a '
+            'World, with handlers dying between operations and between two callbacks of one dispatch under '
+            'generated listener orders; every callback receiver checked, weak references checked dead after '
+            'the last strong reference is dropped, every dispatch must return and reach exactly the survivors.',
+            'Relies on CPython reference counting; the order injection is a harness-side module global in '
+            'desper.events (evidence field schedule_control_used shows whether it applied).',
+            'DESIGN.md section 3 / C10'),
 }
 
 ALL = ['C%02d' % i for i in range(1, 21)]
